@@ -121,6 +121,7 @@ def gen_config(rng, tier, index=0):
         "temperatures": rng.choice([None, None, [0.3, 1.0]]),
         "variants": [],
         "opt_picks": [rng.random() for _ in range(3)],
+        "unnamed": [rng.random() < 0.35 for _ in range(14)] if rng.random() < 0.3 else [],
     }
     fail_batch = rng.random() < 0.35
     cfg["fail"] = None
@@ -169,8 +170,13 @@ def multi_core(var):
 
 
 def rec_key(line):
+    """(chrom, pos, unit key): records are identified by position (CHROM:POS), not by ID - a locus need not have a name."""
     f = line.split("\t")
-    return (f[0], f[1], f[2]) if len(f) > 3 else ("?", "?", line[:20])
+    return (f[0], f[1], "%s:%s" % (f[0], f[1])) if len(f) > 3 else ("?", "?", line[:20])
+
+
+def locus_key(locus):
+    return "%s:%d" % (locus.contig, locus.start + 1)
 
 
 def filedate(day):
@@ -268,7 +274,7 @@ class Batch:
         if program == "assemble":
             if region is not None:
                 c, s, e, name = region
-                a += ["--region", "%s:%d-%d" % (c, s, e), "--region-id", name]
+                a += ["--region", "%s:%d-%d" % (c, s, e)] + (["--region-id", name] if name is not None else [])
             else:
                 a += ["--targets", bed]
             a += ["--variants", ds["variants"], "--reference", ds["fasta"]]
@@ -439,8 +445,13 @@ def run_batch(ctx, b):
         datasets.write_vcf_subset(hv, hap_header, hap_records)
     # canonical run
     if program == "assemble":
-        can = b.run(program, b.argv(program, ds, 1, bed=ds["bed"]), DAY0, seed_rng=False)
-        unit_keys = [x[3] for x in ds["loci"]]
+        # un-named target lines (BED3 lines among BED4 lines): the same loci are un-named in every run of the batch
+        unnamed = cfg.get("unnamed") or []
+        bed_loci = [(c, a, e, (None if (i < len(unnamed) and unnamed[i]) else name)) for i, (c, a, e, name) in enumerate(ds["loci"])]
+        if any(x[3] is None for x in bed_loci):
+            ctx.counters.inc("unnamed_target_lines")
+        can = b.run(program, b.argv(program, ds, 1, bed=datasets.write_bed(b.path(".bed"), bed_loci)), DAY0, seed_rng=False)
+        unit_keys = ["%s:%d" % (x[0], x[1] + 1) for x in ds["loci"]]
     else:
         can = b.run(program, b.argv(program, ds, 1, hapvcf=hv), DAY0, seed_rng=False)
         unit_keys = [rec_key(l)[2] for l in hap_records]
@@ -495,7 +506,7 @@ def run_batch(ctx, b):
         cores = var["cores"]
         if var["region"] and program == "assemble" and units:
             units = units[:1]
-            region = ds["loci"][units[0]]
+            region = bed_loci[units[0]]
             ctx.counters.inc("region_single")
         want_keys = [unit_keys[u] for u in units]
         # failing locus
@@ -520,11 +531,11 @@ def run_batch(ctx, b):
                 ctx.counters.inc("failing_locus_io_error")
             else:
                 def before(locus, _k=fail_key):
-                    if locus.name == _k or getattr(locus, "name", None) == _k:
+                    if locus_key(locus) == _k:
                         raise RuntimeError("injected failure at locus %s" % _k)
                 ctx.counters.inc("failing_locus_injected")
         if program == "assemble":
-            bed = datasets.write_bed(b.path(".bed"), [ds["loci"][u] for u in units]) if region is None else None
+            bed = datasets.write_bed(b.path(".bed"), [bed_loci[u] for u in units]) if region is None else None
             argv = b.argv(program, dsv, cores, bed=bed, region=region)
         else:
             hv2 = datasets.write_vcf_subset(b.path(".vcf"), hap_header, [hap_records[u] for u in units])
@@ -535,7 +546,7 @@ def run_batch(ctx, b):
         real_erv = bc.extract_read_variants
         if io_fault is not None:
             def erv(locus, *a, _k=io_fault[0], _e=io_fault[1], **kw):
-                if getattr(locus, "name", None) == _k:
+                if locus_key(locus) == _k:
                     raise _e("truncated file")
                 return real_erv(locus, *a, **kw)
             bc.extract_read_variants = erv
